@@ -2,6 +2,7 @@
 EXTENDS Backend, Json
 KeysQ == {"k1", "k2", "kBig"}
 KeysT == {"k1", "k2", "kBig", "k255", "kUni"}
+KeysU == {"k1", "k2", "kUni"}     \* kUni: 128 characters that encode to 256 bytes
 KLen  == [k \in KeysT |-> CASE k = "k1" -> 2 [] k = "k2" -> 2 [] k = "kBig" -> 256 [] k = "k255" -> 255 [] k = "kUni" -> 256]
 ValsQ == {"vE", "v1"}
 ValsT == {"vE", "v1", "v70k"}
